@@ -394,27 +394,47 @@ func selection(c *core.Ctx, rec, node *core.Fn, trueNil bool) {
 		is, nonNil := errFact(info, f, perr)
 		return perr != nil && is && !nonNil
 	}
-	// assignments to <result>.Source / appends to <result>.Slaves inside the loop
+	// the carriers of the result: <result>.Source / <result>.Slaves themselves, or the locals that
+	// are stored into these fields once the loop is over (values carried in locals)
 	var res types.Object
+	srcVars, slvVars := map[types.Object]bool{}, map[types.Object]bool{}
+	core.Inspect(body, func(n ast.Node) bool {
+		as, ok := n.(*ast.AssignStmt)
+		if !ok || len(as.Lhs) != 1 || len(as.Rhs) != 1 {
+			return true
+		}
+		for fld, vars := range map[string]map[types.Object]bool{"Source": srcVars, "Slaves": slvVars} {
+			if base, ok := isNodeField(info, as.Lhs[0], fld); ok && identObj(info, base) != nil {
+				res = identObj(info, base)
+				if v, isVar := identObj(info, as.Rhs[0]).(*types.Var); isVar && !v.IsField() && x.LoopOf(as) != ast.Stmt(loop) && v != host {
+					vars[v] = true
+				}
+			}
+		}
+		return true
+	})
+	isCarrier := func(e ast.Expr, fld string, vars map[types.Object]bool) bool {
+		if base, ok := isNodeField(info, e, fld); ok {
+			return res != nil && identObj(info, base) == res
+		}
+		o := identObj(info, e)
+		return o != nil && vars[o]
+	}
 	var sources, appends, keeps []ast.Node
 	for _, p := range g.Points(func(n ast.Node) bool { _, ok := n.(*ast.AssignStmt); return ok }) {
 		as := p.Node().(*ast.AssignStmt)
 		if len(as.Lhs) != 1 || len(as.Rhs) != 1 || x.LoopOf(as) != ast.Stmt(loop) {
 			continue
 		}
-		if base, ok := isNodeField(info, as.Lhs[0], "Source"); ok && identObj(info, base) != nil {
-			res = identObj(info, base)
+		if isCarrier(as.Lhs[0], "Source", srcVars) {
 			sources = append(sources, as)
 			continue
 		}
-		if b := pat.Stmt("_r.Slaves = append(_r.Slaves, _h)").Match(info, as, nil); b != nil {
-			if _, ok := isNodeField(info, as.Lhs[0], "Slaves"); !ok {
-				continue
-			}
+		if b := pat.Stmt("_l = append(_l, _h)").Match(info, as, nil); b != nil && isCarrier(as.Lhs[0], "Slaves", slvVars) {
 			h := b["_h"].(ast.Expr)
 			if identObj(info, h) == host {
 				appends = append(appends, as)
-			} else if base, ok := isNodeField(info, h, "Source"); ok && pat.Same(info, base, b["_r"]) {
+			} else if isCarrier(h, "Source", srcVars) {
 				keeps = append(keeps, as)
 			}
 		}
